@@ -37,6 +37,7 @@ def main():
     ap.add_argument("--demo", action="store_true", help="also re-run the demonstrations")
     ap.add_argument("--suite", action="store_true", help="also run the repository's test-suite on the changed copy")
     ap.add_argument("--no-checks", action="store_true")
+    ap.add_argument("--results", default="", help="write / merge the outcome into this file instead of seeded/RESULTS.json (parallel runs)")
     ap.add_argument("--seeds", default="", help="comma-separated VERIF_SEED values: run the check once per seed and report the caught fraction")
     a = ap.parse_args()
     os.makedirs("/root/scratch", exist_ok=True)
@@ -101,7 +102,7 @@ def main():
             json.dump(out, f, indent=1)
         print("multi-seed: mutants not caught under every seed: %r" % [r["id"] for r in out if not r.get("caught")])
         return 0
-    rp = os.path.join(root, "RESULTS.json")
+    rp = a.results or os.path.join(root, "RESULTS.json")
     merged = {}
     if os.path.exists(rp):
         try:
